@@ -118,9 +118,84 @@ class Reg:
         fail(s, "unsupported statement in a registry operation")
 
 
+DEFAULTS = {"tags": "None", "any_tag": "False"}
+
+THR_INIT = """
+super().__init__(logger=logger)
+self.__max_exec = max_exec
+self.__tzinfo = tzinfo
+self.__priority_function = priority_function
+self.__jobs_lock = threading.RLock()
+if not jobs:
+    self.__jobs = set()
+elif isinstance(jobs, set):
+    self.__jobs = jobs
+else:
+    self.__jobs = set(jobs)
+for job in self.__jobs:
+    if job._tzinfo != self.__tzinfo:
+        raise SchedulerError(TZ_ERROR_MSG)
+self.__jobs = {job for job in self.__jobs if job.has_attempts_remaining}
+self.__n_threads = n_threads
+self.__tz_str = check_tzname(tzinfo=tzinfo)
+"""
+THR_SCHEDULE = """
+job: Job = create_job_instance(Job, tzinfo=self.__tzinfo, **kwargs)
+if job.has_attempts_remaining:
+    with self.__jobs_lock:
+        self.__jobs.add(job)
+return job
+"""
+AIO_INIT = """
+super().__init__(logger=logger)
+try:
+    self.__loop = loop if loop else aio.get_running_loop()
+except RuntimeError:
+    raise SchedulerError('The asyncio Scheduler requires a running event loop.') from None
+self.__tzinfo = tzinfo
+self.__tz_str = check_tzname(tzinfo=tzinfo)
+self._jobs: dict[Job, aio.Task[None]] = {}
+"""
+BASE_INIT = "self._logger = logger if logger else LOGGER\n"
+CREATE = """
+if not isinstance(timing, list):
+    timing_list = cast(TimingJobUnion, [timing])
+else:
+    timing_list = cast(TimingJobUnion, timing)
+return job_class(timing=timing_list, **kwargs)
+"""
+
+
+def nodoc(body):
+    return [b for b in body if not (isinstance(b, ast.Expr) and isinstance(b.value, ast.Constant) and isinstance(b.value.value, str))]
+
+
+def check_body(tree, cls, name, text, what):
+    """a method (or module-level function when cls is None) must be exactly the known text"""
+    if cls is None:
+        fds = [f for f in tree.body if isinstance(f, ast.FunctionDef) and f.name == name]
+        if len(fds) != 1:
+            fail(tree, "%s not found" % name)
+        fd = fds[0]
+    else:
+        fd = find_method(tree, cls, name)
+    if ast.dump(ast.Module(body=nodoc(fd.body), type_ignores=[])) != ast.dump(ast.parse(text)):
+        fail(fd, "%s differs from the template the translator knows" % what)
+    return fd
+
+
+def check_defaults(fd):
+    args = fd.args.args[1:]
+    ds = [None] * (len(args) - len(fd.args.defaults)) + list(fd.args.defaults)
+    for a, d in zip(args, ds):
+        if a.arg in DEFAULTS and (d is None or ast.unparse(d) != DEFAULTS[a.arg]):
+            fail(fd, "default of %s in %s" % (a.arg, fd.name))
+
+
 def method(tree, name, coqname, args, result):
     fd = find_method(tree, "Scheduler", name)
     got = [a.arg for a in fd.args.args[1:]]
+    check_defaults(fd)
     if got != [a for a, _ in args] or fd.args.kwonlyargs or fd.args.vararg or fd.args.kwarg:
         fail(fd, "signature of %s" % name)
     body = Reg(fd, result).block(list(fd.body))
@@ -183,6 +258,7 @@ class AioReg(Reg):
 
 def aio_method(tree, name, coqname, args, result, strip_unit=False):
     fd = find_method(tree, "Scheduler", name)
+    check_defaults(fd)
     got = [a.arg for a in fd.args.args[1:]]
     if got != [a for a, _ in args] or fd.args.kwonlyargs or fd.args.vararg or fd.args.kwarg:
         fail(fd, "signature of %s" % name)
